@@ -1617,8 +1617,10 @@ recur:
     if (status > 0) {
         if (NULL != response.cb) {
             response.cb(response.msg);
-            janet_ev_dec_refcount();
         }
+        /* Every event was counted when it was posted (janet_ev_post_event, janet_ev_threaded_call),
+         * also those without a callback (janet_loop1_interrupt). */
+        janet_ev_dec_refcount();
         goto recur;
     }
 }
